@@ -345,7 +345,9 @@ Theorem C12_source_cs_read_full : forall rf rp fo po k sx m h, Forall byte sx ->
           forall k' s', exists f1, forall g, (f1 <= g)%nat -> exists fin2,
             callC prog_env g prog_sbdf_cs_destroy [VCell (List.length h) 0] (inb fin) k' s' (h ++ hnew) = OReturn (VInt 0) fin2 /\
             inb fin2 = inb fin /\ Imp.lookup cells_var (vars fin2) = Some (VHeap (h ++ nones (List.length hnew))))
-     \/ (st < 0 /\ Imp.lookup "*out" (vars fin) = Some VUndef /\ exists j, Imp.lookup cells_var (vars fin) = Some (VHeap (h ++ nones j)))).
+     \/ (st < 0 /\ Imp.lookup "*out" (vars fin) = Some VUndef /\ exists j, Imp.lookup cells_var (vars fin) = Some (VHeap (h ++ nones j)))) /\
+    (* without allocation failures the status is the one the model's readers give (cs_st: C05_source_cs_read_status_is_the_models) *)
+    (k < 0 -> st = cs_st sx).
 Proof. exact cs_read_full_source. Qed.
 Print Assumptions C12_source_cs_read_full.
 
